@@ -34,6 +34,8 @@ MODES = [('none', None), ('start', 'start'), ('end', 'end'), ('mid', 'mid')]
 
 # ---------------------------------------------------------------------------------------------------- running average
 
+PROP_MODULES = ['C17', 'C17Gen']
+
 def ra_spec(orig, w):
     n = len(orig)
     h = w // 2
@@ -68,6 +70,10 @@ def running_average(ctx):
             cases.append(('rand-sine', gen.sine_record(rng, n, 0.01), w, False))
         else:
             cases.append(('rand-dyadic-exact', gen.dyadic_record(rng, min(n, 64)) * LCM25, w, True))
+    # LONG records (beyond any plausible switch to a vectorised / convolution path), even and odd widths, small and large widths
+    for n_long, w in ([(4097, 4), (5000, 7), (9000, 24)] if ctx.tier == 'quick' else
+                      [(4097, 4), (5000, 7), (9000, 24), (4096, 2), (12000, 10), (20000, 25), (6000, 1), (8193, 16)]):
+        cases.append(('long-dyadic', gen.dyadic_record(rng, n_long), w, False))
     for kind, arr, w, exact in cases:
         ctx.hist('running_average/' + kind)
         ctx.hist('running_average/dtype=' + str(arr.dtype))
